@@ -5,7 +5,7 @@
 
 package parser
 
-//@ props C01 C10 C08 C17 C07 C09
+//@ props C01 C10 C08 C17 C07 C09 C03 C04
 
 //@ wf elems
 //@ default opaque
@@ -63,8 +63,16 @@ package parser
 //@ every (*lexer).*
 //@   ensures[C10] keeps-read-error: old(l.err) != nil && !(old(l.err) is Error) ==> l.err == old(l.err)
 
+// ---- syntax errors (C03) ----
+//
+// A syntax error is recorded as a parser.Error carrying the name the caller
+// gave, the position it was raised for and its message; it is dropped only
+// when lexing had already been interrupted by an earlier error and the
+// message is the parser's "unexpected EOF" that this interruption causes.
 //@ func (*lexer).error
-//@   ensures[C10] error-recorded: l.err != nil
+//@   ensures[C10 C03] error-recorded: l.err != nil
+//@   ensures[C03] syntax-error-carries-name-position-message: old(l.err) == nil ==> l.err is Error && l.err.(Error).Name == l.name && l.err.(Error).Pos == pos && l.err.(Error).Msg == msg
+//@   ensures[C03] later-syntax-error-replaces-earlier: old(l.err) is Error && !strcontains(msg, ": unexpected EOF") ==> l.err is Error && l.err.(Error).Name == l.name && l.err.(Error).Pos == pos && l.err.(Error).Msg == msg
 
 //@ func (*lexer).Error
 //@   waive assert "l.last.Load().(ast.Pos)" the value was stored by Lex or scanCmdSubst; that Error is only called after a Store is a property of the goyacc driver
@@ -127,7 +135,16 @@ package parser
 //@   ensures[C07] consumes-exactly-the-operator: old(len(l.aliases)) == 0 ==> len(l.aliases) == 0 && srcpos() == old(srcpos()) + oplen(result) - 1
 //@   requires r == '&' || r == '(' || r == ')' || r == ';' || r == '<' || r == '>' || r == '|'
 //@   ensures result > 0 && result != WORD && result != IO_NUMBER && len(l.word) == old(len(l.word))
+// Positions are taken from the line/column count at the moment a token or a
+// word part begins (mark), never while text comes from an alias value; a
+// literal part carries the position marked for it.
+//@ func (*lexer).mark
+//@   ensures[C04] marks-the-current-column: len(l.aliases) == 0 ==> l.pos.line == l.line && l.pos.col == l.col + off
+//@   ensures[C04] alias-text-has-no-position: len(l.aliases) != 0 ==> l.pos == old(l.pos)
+//@   preserves[C04] F.parser.lexer.line F.parser.lexer.col F.parser.lexer.word F.parser.lexer.aliases
 //@ func (*lexer).lit
+//@   ensures[C04] literal-carries-the-marked-position: old(l.b) != "" ==> len(l.word) == old(len(l.word)) + 1 && l.word[len(l.word)-1] is *ast.Lit && l.word[len(l.word)-1].(*ast.Lit).ValuePos == old(l.pos) && l.word[len(l.word)-1].(*ast.Lit).Value == old(l.b) && l.b == ""
+//@   ensures[C04] nothing-pending-nothing-added: old(l.b) == "" ==> l.word == old(l.word)
 //@   ensures len(l.word) >= old(len(l.word))
 
 // ---- here-document hand-off counter (C01, C08) ----
@@ -283,12 +300,19 @@ package parser
 //@ func (*lexer).read
 //@   ensures[C07 C09] delivers-next-rune: old(len(l.aliases)) == 0 && result1 == nil ==> len(l.aliases) == 0 && srcpos() == old(srcpos()) + 1 && result0 == srcrune(old(srcpos())) && 0 <= old(srcpos()) && old(srcpos()) < srclen() && lastread()
 //@   ensures[C07 C09] failed-read-consumes-nothing: old(len(l.aliases)) == 0 && result1 != nil ==> len(l.aliases) == 0 && srcpos() == old(srcpos()) && !lastread() && (result1 == io.EOF ==> l.eof) && (result1 != io.EOF ==> l.err != nil)
+//@   ensures[C04] counts-a-character: old(len(l.aliases)) == 0 && result1 == nil && result0 != '\n' ==> l.line == old(l.line) && l.col == old(l.col) + 1
+//@   ensures[C04] counts-a-line: old(len(l.aliases)) == 0 && result1 == nil && result0 == '\n' ==> l.line == old(l.line) + 1 && l.col == 1 && l.prevCol == old(l.col)
+//@   ensures[C04] failed-read-keeps-position: old(len(l.aliases)) == 0 && result1 != nil ==> l.line == old(l.line) && l.col == old(l.col)
+//@   ensures[C04] alias-text-has-no-position: old(len(l.aliases)) != 0 && len(l.aliases) != 0 ==> l.line == old(l.line) && l.col == old(l.col) && l.pos == old(l.pos)
 //@   ensures[C17] only-pops: len(l.aliases) <= old(len(l.aliases)) && (forall j: 0 <= j && j < len(l.aliases) ==> l.aliases[j] == old(l.aliases[j]))
 //@   ensures[C10] read-error-recorded: result1 != nil && result1 != io.EOF ==> l.err != nil
 //@   ensures[C10] first-error-kept: old(l.err) != nil ==> l.err == old(l.err)
 //@   ensures[C10] slot-holds-the-read-error: old(l.err) == nil && l.err != nil ==> l.err == result1
 //@   loop "for i := len(l.aliases) - 1; i >= 0; i--" invariant i < len(l.aliases)
 //@ func (*lexer).unread
+//@   ensures[C04] steps-back-a-character: old(len(l.aliases)) == 0 && old(l.col) != 1 ==> l.line == old(l.line) && l.col == old(l.col) - 1
+//@   ensures[C04] steps-back-a-line: old(len(l.aliases)) == 0 && old(l.col) == 1 ==> l.line == old(l.line) - 1 && l.col == old(l.prevCol)
+//@   ensures[C04] alias-text-has-no-position: old(len(l.aliases)) != 0 ==> l.line == old(l.line) && l.col == old(l.col) && l.pos == old(l.pos)
 //@   ensures[C07 C09] takes-back-one: old(len(l.aliases)) == 0 && old(lastread()) ==> srcpos() == old(srcpos()) - 1 && len(l.aliases) == 0
 //@   ensures[C07 C09] nothing-to-take-back: old(len(l.aliases)) == 0 && !old(lastread()) ==> srcpos() == old(srcpos()) && len(l.aliases) == 0
 
@@ -304,11 +328,16 @@ package parser
 // grammar then guarantees one command that is a subshell or an arithmetic
 // evaluation; this is a property of the LALR automaton, not of this function.
 //@ func (*lexer).scanCmdSubst
+//@   ensures[C03 C04] position-resynchronised: result ==> l.line == ll.line && l.col == ll.col && l.pos == ll.pos
 //@   assert[C10] at call sync.(*Mutex).Unlock: nested-error-recorded: l.err != nil && (!(ll.err is Error) && old(l.err) == nil ==> l.err == ll.err)
 //@   waive bounds "ll.cmds[0]" needs the grammar-level fact that an accepted substitution yields exactly one command
 //@   waive assert "ll.cmds[0].(*ast.Cmd)" needs the grammar-level fact that an accepted substitution yields a *ast.Cmd
 
+// The value of an assignment word starts one character after the "=": the
+// column is counted in characters of the name, not bytes.
 //@ func assign
+//@   ensures[C04] value-position-counts-characters: 0 < i && i < old(len(n.Value)) - 1 ==> result.Value[0] is *ast.Lit && result.Value[0].(*ast.Lit).ValuePos.line == old(n.ValuePos.line) && result.Value[0].(*ast.Lit).ValuePos.col == old(n.ValuePos.col) + rune_count(old(n.Value)[:i]) + 1
+//@   ensures[C04] name-keeps-its-position: result.Name == n && n.ValuePos == old(n.ValuePos)
 //@   requires len(w) >= 1 && w[0] is *ast.Lit && len(w[0].(*ast.Lit).Value) >= 1
 //@   ensures result != nil
 
@@ -317,7 +346,7 @@ package parser
 
 // What ParseCommands reports is the error slot of its lexer.
 //@ func ParseCommands
-//@   ensures[C10] returns-error-slot: err == nil ==> result2 == l.err
+//@   ensures[C10 C03] returns-error-slot: err == nil ==> result2 == l.err
 
 //@ func open
 //@   ensures err == nil ==> r != nil
